@@ -776,7 +776,21 @@ class Facts:
                             if k2 != k:
                                 add.append((p, k2))
                             break
-        out = frozenset(a for a in st if tag not in a[1]) | frozenset(add)
+        # locals the callee hands back by name (`return a, b`) live on in
+        # the caller under the caller's names (canon() maps those to the
+        # callee's): what is known about them stays
+        kept = set()
+        from .model import walk_own as _walk_own
+        for r in _walk_own(callee.ctx.func.node):
+            if isinstance(r, ast.Return) and r.value is not None:
+                for el in (r.value.elts if isinstance(r.value, ast.Tuple)
+                           else [r.value]):
+                    if isinstance(el, ast.Name):
+                        kept.add(el.id + tag)
+        out = frozenset(
+            a for a in st if tag not in a[1] or
+            (kept and all(kp in kept for kp in key_paths(a[1])
+                          if tag in kp))) | frozenset(add)
         # a threaded call (the caller branches on the result): this
         # continuation is the one on which the call was true / false
         cls = n.extra.get('ret_class')
